@@ -1,6 +1,7 @@
 from __future__ import annotations
 
 import asyncio
+import time
 from typing import TYPE_CHECKING, Awaitable, Callable, Iterable
 
 from repid.connections.abc import ConsumerT
@@ -194,7 +195,8 @@ class _RedisConsumer(ConsumerT):
         return None
 
     def __mark_processing(self, msg_short_name: str, full_queue_name: str, pipe: Pipeline) -> None:
-        pipe.zadd(self.broker.processing_queue, {msg_short_name: str(unix_time())})
+        # precise start time: maintenance must not consider the message timed out up to a second too early
+        pipe.zadd(self.broker.processing_queue, {msg_short_name: str(time.time())})
         pipe.hset(
             full_message_name_from_short(msg_short_name, full_queue_name),
             key="_reject_to",
